@@ -798,7 +798,7 @@ impl Part for QueryPart {
         "query"
     }
     fn cases(&self, tier: Tier) -> u32 {
-        tier.pick(6000, 120_000)
+        tier.pick(8000, 120_000)
     }
     fn strategy(&self, _: Tier) -> BoxedStrategy<Case> {
         case_strategy(false)
